@@ -154,6 +154,55 @@ def loop_bound_vars(prog):
     return out
 
 
+def _count_nodes(e, cls):
+    from pymbolic.mapper.dependency import DependencyMapper  # noqa: F401 (pymbolic present)
+    import pymbolic.primitives as p
+    n = 0
+    stack = [e]
+    while stack:
+        x = stack.pop()
+        if isinstance(x, cls):
+            n += 1
+        if isinstance(x, p.ExpressionNode):
+            for f in x.__getinitargs__() if hasattr(x, "__getinitargs__") else ():
+                stack.append(f)
+        elif isinstance(x, (tuple, list)):
+            stack.extend(x)
+        elif hasattr(x, "values") and not isinstance(x, (str, bytes)):
+            try:
+                stack.extend(x.values())
+            except TypeError:
+                pass
+    return n
+
+
+def flatten_drops(e_dsl, what):
+    """Does pymbolic's flatten (applied by dagrt.language.Assign to its right-hand
+    side) remove a node of kind *what* ('sub' | 'call') from the written expression?
+    x*0 -> 0 and 0/x -> 0 discard the other factors without evaluating them."""
+    import pymbolic.primitives as p
+    from pymbolic.mapper.flattener import flatten
+    cls = {"sub": p.Subscript, "call": (p.Call, p.CallWithKwargs)}[what]
+    e = exprdsl.build(e_dsl)
+    try:
+        f = flatten(e)
+    except Exception:  # noqa
+        return False
+    return _count_nodes(f, cls) < _count_nodes(e, cls)
+
+
+def prog_flatten_drops(prog, what, phase=None):
+    for ph in prog["phases"]:
+        if phase is not None and ph["name"] != phase:
+            continue
+        for op in walk_ops(ph["ops"]):
+            for e in op_exprs(op):
+                for _, s in exprdsl.subterms(e):
+                    if s[0] in ("*", "/") and flatten_drops(s, what):
+                        return True
+    return False
+
+
 def count_ops(prog):
     return sum(1 for ph in prog["phases"] for _ in walk_ops(ph["ops"]))
 
